@@ -536,6 +536,14 @@ func (srv *server) sendWillLocked(msg *gmqtt.Message, clientID string) {
 	if opts.TopicName == topic {
 		opts.TopicName = req.Message.Topic
 	}
+	if req.Message.Retained {
+		// a will message is published like any other message: keep it as retained message if it asks for it
+		if len(req.Message.Payload) == 0 {
+			srv.retainedDB.Remove(req.Message.Topic)
+		} else {
+			srv.retainedDB.AddOrReplace(req.Message.Copy())
+		}
+	}
 	srv.deliverMessage(clientID, req.Message, opts)
 	if srv.hooks.OnWillPublished != nil {
 		srv.hooks.OnWillPublished(context.Background(), clientID, req.Message)
